@@ -155,7 +155,7 @@ def analyse(meta, run, gen_path):
             tags += tags_on_lines(prim["line_start"], prim["line_end"])
             clause = b"\n".join(gen_lines[prim["line_start"] - 1:prim["line_end"]]).decode(errors="replace").strip()[:300]
         if kind == "pre":
-            if ext_clause or "panic" in tags:
+            if ext_clause or "panic" in tags or clause is None:
                 kind = "panic"
             else:
                 kind = "pre@callee"
